@@ -141,6 +141,34 @@ class Scenario:
                 events[name].set()
             loop.call_soon_threadsafe(go)
 
+        # real suspenders on fake signals
+        import bluesky.suspenders as bsus
+        sigs = {n: D.Sig(n, rec, value=v) for n, v in sc.get("signals", {}).items()}
+        suspenders = {}
+        for n, d in sc.get("suspenders", {}).items():
+            cls = getattr(bsus, d.get("type", "SuspendBoolHigh"))
+            pre = [build_msg(m, devs, futs) for m in d.get("pre", [])] or None
+            post = [build_msg(m, devs, futs) for m in d.get("post", [])] or None
+            suspenders[n] = cls(sigs[d["signal"]], *d.get("args", []), pre_plan=pre, post_plan=post)
+
+        def sus_op(op, name, value=0):
+            """install / remove a suspender, change a signal: logged as request events"""
+            rec.ev("req", op, name, "", int(value), 0)
+            out = "ok"
+            try:
+                if op == "sus_install":
+                    RE.install_suspender(suspenders[name])
+                elif op == "sus_remove":
+                    RE.remove_suspender(suspenders[name])
+                elif op == "sig_put":
+                    sigs[name].put(value)
+            except BaseException as e:  # noqa
+                out = "exc:" + exc_kind(e)
+            return out
+
+        for op, name, value in sc.get("before", []):
+            rec.ev("reqret", op, sus_op(op, name, value))
+
         inj = {}
         for i in sc.get("inject", []):
             inj.setdefault(i["at"], []).append(i)
@@ -149,6 +177,8 @@ class Scenario:
             kind = i["kind"]
 
             def fn():
+                if kind in ("sus_install", "sus_remove", "sig_put"):
+                    return sus_op(kind, i["arg"], i.get("value", 0))
                 rec.ev("req", kind, i.get("arg", "") if kind in ("suspend", "release", "update", "finish") else "",
                        i.get("pre_id", ""), 0, 0, i.get("post_id", ""))
                 out = "ok"
@@ -188,15 +218,18 @@ class Scenario:
 
         def pick(p, kind):
             rec.sched.append((p, kind, len(rec.events)))
-            lst = inj.get(p)
+            lst = inj.pop(p, None)
+            if not lst and kind == "blocked":
+                lst = inj.pop("blocked", None)     # requests scheduled for "whenever the engine waits for something external"
             if not lst:
                 return None
-            i = lst.pop(0)
-            f = request_fn(i)
+            fns = [(i, request_fn(i)) for i in lst]      # several requests at one scheduling point: made back to back
 
             def run_and_log():
-                out = f()
-                pending_ret.append((i["kind"], out))
+                out = None
+                for i, f in fns:
+                    out = f()
+                    pending_ret.append((i["kind"], out))
                 return out
             return run_and_log
 
@@ -232,6 +265,25 @@ class Scenario:
             rec.ev("ret", op, oc, str(RE.state), nu, int(RE.resumable))
             outcomes.append((op, oc, str(RE.state)))
 
+        loop.point = 0
+        loop._blocked_point_done = False
+        # watchdog: an execution that does not finish (nothing will ever release it) is recorded as a hang and torn down
+        done_flag = threading.Event()
+        self.hung = False
+
+        def watchdog():
+            if not done_flag.wait(sc.get("timeout", 20)):
+                self.hung = True
+                rec.ev("hang", str(RE.state))
+                try:
+                    for evt in list(events.values()):
+                        loop.call_soon_threadsafe(evt.set)
+                    loop.call_soon_threadsafe(lambda: RE._task and RE._task.cancel())
+                    RE._blocking_event.set()
+                except Exception:  # noqa
+                    pass
+
+        threading.Thread(target=watchdog, daemon=True).start()
         with contextlib.redirect_stdout(out), contextlib.redirect_stderr(out):
             do_call("run", lambda: RE(plan, **opts.get("call_md", {})))
             guard = 0
@@ -241,6 +293,7 @@ class Scenario:
                 if d == "none":
                     break
                 do_call(d, getattr(RE, d))
+        done_flag.set()
         self.points = loop.point
         self.outcomes = outcomes
         self.harness_errors = [r for r in loop.inject_results if r[2][0] == "exc"]
